@@ -42,7 +42,7 @@ BOUNDS = {
                   n_random_pts=1500, n_rs_pts=120, cover_conc=6, cover_rand=160, cover_rs_rand=40, cover_star=400, pairs_star=300, HistN2=1, HistCalls=2, hist_rand=150, hist_rs_rand=50, reps_per_row=2, ScaleSizes={100000, 100001, 250000}, deep_star=180, WorldObj=2, WorldCalls=3, WorldMC=(3, 3), world_conc=2,
                   pairs_rand=500, pairs_rs_rand=200, cap_cover=2e5, cap_pairs=3e4, cap_span=2e4),
     "thorough": dict(Scope="t", FullDepth=5, Levels=2, MaxN1=1, MaxN2=2,
-                     n_random_pts=40000, n_rs_pts=414, cover_conc=8, cover_rand=3000, cover_rs_rand=500, cover_star=5000, pairs_star=3000, HistN2=1, HistCalls=3, hist_rand=2500, hist_rs_rand=800, reps_per_row=12, ScaleSizes={65535, 65536, 65537, 100000, 100001, 131073, 200000, 200001, 250000, 300007, 1048577}, deep_star=4000, WorldObj=3, WorldCalls=3, WorldMC=(3, 4), world_conc=5,
+                     n_random_pts=40000, n_rs_pts=414, cover_conc=8, cover_rand=3000, cover_rs_rand=500, cover_star=5000, pairs_star=3000, HistN2=1, HistCalls=3, hist_rand=2500, hist_rs_rand=800, reps_per_row=12, ScaleSizes={65535, 65536, 65537, 100000, 100001, 131073, 200000, 200001, 250000, 300007, 1048577}, deep_star=4000, WorldObj=3, WorldCalls=3, WorldMC=(3, 3), world_conc=3,
                      pairs_rand=6000, pairs_rs_rand=3000, cap_cover=2e6, cap_pairs=6e4, cap_span=6e4),
 }
 LIST_MAX = 48          # intersect lists up to this length are written out and re-projected by TLC
@@ -775,6 +775,8 @@ def _check_trixel_geometry(seed, n=150):
         d = rng.randrange(1, 25)
         ra, dec = rand_centre(rng)
         tid = int(np.asarray(htm(d).lookup_id(ra, dec)).ravel()[0])
+        if not 8 * 4 ** d <= tid < 16 * 4 ** d:
+            raise MachineryError("trixel reconstruction cannot be validated: lookup_id at depth %d returned %d" % (d, tid))
         vs = hl.trixel_corners(tid, d)
         g = hl._unit(vs[0] + vs[1] + vs[2])
         gra = float((np.arctan2(g[1], g[0]) * 180 / np.pi) % 360)
@@ -1385,6 +1387,29 @@ def run(ctx):
         n_lookup = len(items)
         items_probe["lookup"] = next((it for it in items if it[0]["id"] not in rej and it[0]["err"] == "none"), None)
 
+    # ---- 2w. world: sessions over several live HTM objects, each in one fresh process ------------------------------
+    n_world = 0
+    if want("world") or want("lookup"):
+        sess = world_sessions(world_cases, B["world_conc"], rng)
+        out = run_world(sess)
+        items = [(rec, {"depths": s_["depths"]}, {"part": "world", "session": s_}) for rec, s_ in zip(out, sess)]
+        for rec, meta, rp in items:
+            ctx.count(rp["session"])
+            ctx.evaluations += 2 * sum(1 for c in rec["calls"] if c["op"] != "scribble") - 1
+        smp = items[0]
+        ctx.sample({"world_session": smp[2]["session"], "observed": smp[0]["calls"]})
+        rej = judge(ctx, items, "judge sessions over several HTM objects (HtmIdsTrace)")
+        n_world = len(items)
+
+        def collides(rec):
+            L = [c for c in rec["calls"] if c["op"] == "lookup" and c["err"] == "none" and c["mode"] == "scalar"]
+            return any(a["pos"] == b["pos"] and rec["depths"][a["obj"] - 1] != rec["depths"][b["obj"] - 1] for a in L for b in L)
+        if not any(collides(it[0]) for it in items) or not any(c["op"] == "scribble" for it in items for c in it[0]["calls"]) \
+                or not any(c["op"] == "intersect" and c["err"] == "none" and c["dig"] and c["dig"][0] > 0 for it in items for c in it[0]["calls"]):
+            raise MachineryError("vacuous: world sessions without colliding scalar lookups / scribbles / non-empty intersects")
+        ctx.note(world_sessions=n_world, world_exported=len(world_cases))
+        items_probe["world"] = next((it for it in items if it[0]["id"] not in rej and collides(it[0])), None)
+
     # ---- 3. intersect: spec -> code (exported circles) and code -> spec (seeded larger ones) ----------
     n_cover = 0
     if want("cover"):
@@ -1485,29 +1510,6 @@ def run(ctx):
         if not any(len(it[0]["scale"]) > 1 and sum(it[0]["bobs"]["counts"]) > 0 for it in items):
             raise MachineryError("vacuous: no large first list with a per-point scale counted a pair")
         ctx.note(scale_cases=n_scale, scale_sizes=sorted(B["ScaleSizes"]))
-
-    # ---- 4w. world: sessions over several live HTM objects, each in one fresh process ------------------------------
-    n_world = 0
-    if want("world") or want("lookup"):
-        sess = world_sessions(world_cases, B["world_conc"], rng)
-        out = run_world(sess)
-        items = [(rec, {"depths": s_["depths"]}, {"part": "world", "session": s_}) for rec, s_ in zip(out, sess)]
-        for rec, meta, rp in items:
-            ctx.count(rp["session"])
-            ctx.evaluations += 2 * sum(1 for c in rec["calls"] if c["op"] != "scribble") - 1
-        smp = items[0]
-        ctx.sample({"world_session": smp[2]["session"], "observed": smp[0]["calls"]})
-        rej = judge(ctx, items, "judge sessions over several HTM objects (HtmIdsTrace)")
-        n_world = len(items)
-
-        def collides(rec):
-            L = [c for c in rec["calls"] if c["op"] == "lookup" and c["err"] == "none" and c["mode"] == "scalar"]
-            return any(a["pos"] == b["pos"] and rec["depths"][a["obj"] - 1] != rec["depths"][b["obj"] - 1] for a in L for b in L)
-        if not any(collides(it[0]) for it in items) or not any(c["op"] == "scribble" for it in items for c in it[0]["calls"]) \
-                or not any(c["op"] == "intersect" and c["err"] == "none" and c["dig"] and c["dig"][0] > 0 for it in items for c in it[0]["calls"]):
-            raise MachineryError("vacuous: world sessions without colliding scalar lookups / scribbles / non-empty intersects")
-        ctx.note(world_sessions=n_world, world_exported=len(world_cases))
-        items_probe["world"] = next((it for it in items if it[0]["id"] not in rej and collides(it[0])), None)
 
     # ---- 4c. representations: every exported row of the covering design, replayed on a few problems each -------------
     n_reps = 0
